@@ -89,6 +89,7 @@ fn main() {
             if id.len() == 3 && id.starts_with('C') {
                 crash::install(&id);
             }
+            daemonh::install_panic_watch();
             let mut rep = Report::new(&id, &tier, level_of(&id));
             let res = std::panic::catch_unwind(std::panic::AssertUnwindSafe(|| run_check(&id, &mut rep)));
             match res {
@@ -98,8 +99,21 @@ fn main() {
                     std::process::exit(2)
                 }
                 Err(_) => {
-                    eprintln!("MACHINERY FAILURE: check {id} panicked in harness code");
-                    std::process::exit(2)
+                    // a panic raised inside the library (its source location is under /repo) while the
+                    // check's own thread was calling it is the library's failure, not the machinery's
+                    let panics = daemonh::take_panics();
+                    let lib = panics.iter().rev().find(|p| p.starts_with("thread 'main'") && (p.contains("/repo/vhost/") || p.contains("/repo/vhost-user-backend/")));
+                    match lib {
+                        Some(p) => {
+                            let site = p.split("panicked at ").nth(1).map(|r| r.split(':').take(2).collect::<Vec<_>>().join(":")).unwrap_or_default();
+                            rep.violation(&format!("{id}:library-panicked:{site}"), &format!("library code panicked while the check was calling it: {p}"), serde_json::json!({"check": id, "panic": p}));
+                            std::process::exit(rep.finish())
+                        }
+                        None => {
+                            eprintln!("MACHINERY FAILURE: check {id} panicked in harness code");
+                            std::process::exit(2)
+                        }
+                    }
                 }
             }
         }
